@@ -18,8 +18,9 @@ import PharmpyModel.Generated.C18Tables
 namespace Pharmpy.C18
 
 /-- The `modes` / `depot` attribute of a statement: `Wildcard()`, a tuple of `Name`s,
-    or a bare `Name` (what `Absorption((Name('INST')))` stores: the parentheses do not
-    make a tuple). -/
+    or a bare `Name` (what `Absorption((Name('INST')))` stored before fix f9eda08: the
+    parentheses do not make a tuple; the code no longer produces it, the constructor is kept so
+    that the wire format can still express it). -/
 inductive Modes where
   | wild
   | names (l : List String)
@@ -34,21 +35,19 @@ structure ModeKind where
   addDedup : Bool
   /-- the last branch of `__sub__` wraps the difference in `tuple(set(...))`. -/
   subDedup : Bool
-  /-- `__sub__` with a wildcard right operand returns `Cls((Name(bareName)))`. -/
-  bareName : String
   /-- mode re-inserted when a difference is empty. -/
   subDefault : String
   deriving Repr
 
 def absorptionKind : ModeKind :=
   { name := "ABSORPTION", wildcard := Gen.absorptionWildcard, addDedup := true, subDedup := true,
-    bareName := "INST", subDefault := "INST" }
+    subDefault := "INST" }
 def eliminationKind : ModeKind :=
   { name := "ELIMINATION", wildcard := Gen.eliminationWildcard, addDedup := false, subDedup := false,
-    bareName := "INST", subDefault := "FO" }
+    subDefault := "FO" }
 def lagtimeKind : ModeKind :=
   { name := "LAGTIME", wildcard := Gen.lagtimeWildcard, addDedup := true, subDedup := false,
-    bareName := "OFF", subDefault := "OFF" }
+    subDefault := "OFF" }
 
 /-- First-occurrence de-duplication (`dict.fromkeys` order; stands for `tuple(set(..))`). -/
 def dedup {α : Type} [BEq α] : List α → List α
@@ -97,7 +96,8 @@ def modesAdd (k : ModeKind) (a b : Modes) : Except Err Modes :=
 
 /-- `Cls.__sub__` -/
 def modesSub (k : ModeKind) (a b : Modes) : Except Err Modes :=
-  if b.isWild then .ok (.bare k.bareName)
+  -- since f9eda08 a 1-tuple of the class default (before: a bare `Name`, for Elimination even `INST`)
+  if b.isWild then .ok (.names [k.subDefault])
   else do
     let all ←
       if a.isWild then filterNotIn k.wildcard b
